@@ -1190,3 +1190,176 @@ func c08ConfirmWindow(c *rep.Ctx) {
 		c.Check("confirm-window", shortName(an.FuncName(s.Fn.TopDecl().Obj))+"|SetConfirms", s.Call.Pos(), good, "a produced block announces Confirms = its number minus the number of the producer's previous block ("+lf.String()+")")
 	}
 }
+
+// --- C10: an update that leaves a subtree empty says so (shortcut move-up depends on it) ---
+//
+// The trie is canonical (one shape per content, hence history independent)
+// only if a shortcut whose sibling subtree became empty moves up.  The parent
+// learns that from mresult.deleted.  Decided: (1) every successful result that
+// carries no node (the subtree is empty) has deleted == true; an error result
+// carries no node; (2) in the three combining functions the interior node is
+// built only on paths where no child reported a deletion or the move-up
+// declined.  Which shortcut moves where (the arithmetic) is not decided.
+func init() { extend("C10", c10EmptyResultDeleted) }
+
+func c10EmptyResultDeleted(c *rep.Ctx) {
+	p := c.Prog
+	st := p.LookupStruct("pkg/trie", "mresult")
+	if st == nil || st.NumFields() != 3 {
+		c.Undecide("empty-result", "pkg/trie.mresult", "result type not found or changed its fields")
+		return
+	}
+	pk := p.Pkg("pkg/trie")
+	info := pk.TypesInfo
+	idx := map[string]int{}
+	for i := 0; i < st.NumFields(); i++ {
+		idx[st.Field(i).Name()] = i
+	}
+	iU, okU := idx["update"]
+	iD, okD := idx["deleted"]
+	iE, okE := idx["err"]
+	if !okU || !okD || !okE {
+		c.Undecide("empty-result", "pkg/trie.mresult", "fields update/deleted/err not found")
+		return
+	}
+	isNil := func(e ast.Expr) bool {
+		if e == nil {
+			return true // omitted in a keyed literal
+		}
+		tv, ok := info.Types[e]
+		return ok && tv.IsNil()
+	}
+	n := 0
+	seen := map[string]int{}
+	for _, file := range pk.Syntax {
+		ast.Inspect(file, func(nd ast.Node) bool {
+			cl, ok := nd.(*ast.CompositeLit)
+			if !ok {
+				return true
+			}
+			tv, ok := info.Types[cl]
+			if !ok {
+				return true
+			}
+			named, ok := tv.Type.(*types.Named)
+			if !ok || named.Obj().Name() != "mresult" || named.Obj().Pkg() != pk.Types {
+				return true
+			}
+			fields := make([]ast.Expr, 3)
+			for i, el := range cl.Elts {
+				if kv, isKV := el.(*ast.KeyValueExpr); isKV {
+					if id, isId := kv.Key.(*ast.Ident); isId {
+						if j, has := idx[id.Name]; has {
+							fields[j] = kv.Value
+						}
+					}
+				} else if i < 3 {
+					fields[i] = el
+				}
+			}
+			fn := p.EnclosingFunc(pk, cl.Pos())
+			name := "<package level>"
+			if fn != nil {
+				name = fn.TopDecl().Name()
+			}
+			n++
+			// deleted as a constant, looking through a once-defined local
+			del := fields[iD]
+			constVal := func(e ast.Expr) (bool, bool) {
+				if e == nil {
+					return false, true
+				}
+				if tv, ok := info.Types[e]; ok && tv.Value != nil {
+					return tv.Value.ExactString() == "true", true
+				}
+				if o := an.ObjOf(info, e); o != nil && fn != nil {
+					if rhs, _ := fn.Graph().SingleDef(o); rhs != nil {
+						if tv, ok := info.Types[rhs]; ok && tv.Value != nil {
+							return tv.Value.ExactString() == "true", true
+						}
+					}
+				}
+				return false, false
+			}
+			switch {
+			case isNil(fields[iU]) && isNil(fields[iE]):
+				v, known := constVal(del)
+				seen[name+"|empty"]++
+				key := name + "|empty"
+				if k := seen[key]; k > 1 {
+					key += "#" + itoa(k)
+				}
+				c.Check("empty-result", key, cl.Pos(), known && v, "a successful result without a node (the subtree is empty now) always reports deleted, so that the parent can move a sibling shortcut up: otherwise the same content gets a different shape and root depending on the order of earlier updates")
+			case !isNil(fields[iE]):
+				seen[name+"|error"]++
+				key := name + "|error"
+				if k := seen[key]; k > 1 {
+					key += "#" + itoa(k)
+				}
+				c.CheckTrivial("empty-result", key, cl.Pos(), isNil(fields[iU]), "an error result carries no node")
+			}
+			return true
+		})
+	}
+	if n < 12 {
+		c.Undecide("empty-result", "pkg/trie.mresult", "fewer result literals than on the reference tree")
+	}
+	// consumers
+	delF := st.Field(iD)
+	for _, fname := range []string{"pkg/trie.(*Trie).updateRight", "pkg/trie.(*Trie).updateLeft", "pkg/trie.(*Trie).updateParallel"} {
+		f := c.Fn(fname)
+		if f == nil {
+			continue
+		}
+		g := f.Graph()
+		finfo := f.Info()
+		gates := an.Set{}
+		for _, s := range g.CallsTo("pkg/trie.(*Trie).maybeMoveUpShortcut") {
+			for e := range g.BoolEdges(s, false) {
+				gates[e] = true
+			}
+		}
+		nDel := 0
+		for _, nd := range g.Nodes {
+			if nd.Kind != an.KFalse {
+				continue
+			}
+			cond, ok := nd.Ast.(ast.Expr)
+			if !ok {
+				continue
+			}
+			// the false edge of a condition that is a disjunction of .deleted reads: no child deleted
+			all := true
+			var walk func(e ast.Expr)
+			cnt := 0
+			walk = func(e ast.Expr) {
+				e = ast.Unparen(e)
+				if be, isB := e.(*ast.BinaryExpr); isB && be.Op == token.LOR {
+					walk(be.X)
+					walk(be.Y)
+					return
+				}
+				if an.FieldOf(finfo, e) == delF {
+					cnt++
+					return
+				}
+				all = false
+			}
+			walk(cond)
+			if all && cnt > 0 {
+				gates[nd] = true
+				nDel += cnt
+			}
+		}
+		want := 1
+		if strings.HasSuffix(fname, "updateParallel") {
+			want = 2
+		}
+		ih := g.CallsTo("pkg/trie.(*Trie).interiorHash")
+		ok := len(ih) == 1 && nDel == want && len(gates) >= 2
+		for _, s := range ih {
+			ok = ok && g.Dominated(s.Node, gates)
+		}
+		c.Check("empty-result", fname+"|interior-after-moveup", f.Pos(), ok, "the interior node is built only when no updated child reported a deletion (all of them are consulted) or the shortcut move-up declined")
+	}
+}
